@@ -335,3 +335,55 @@ Fixpoint nophantomb (t : ty) : bool :=
       forallb (fun a => match a with ATy c => nophantomb c && existsb (occursb c) fields | _ => true end) args
       && forallb nophantomb fields
   end.
+
+(* ------------------------------------------------------------------------------------ *)
+(** Serialisation used only by the correspondence harness (props/C14/check.py): the model's
+    verdicts on a type as a flat list of integers, in the same encoding impl_types.py uses
+    for the real objects. *)
+From Coq Require Import ZArith.
+Definition qnames : list string := [
+  "tket.bool.bool"; "prelude.string"; "arithmetic.int.types.int"; "arithmetic.float.types.float64";
+  "collections.list.List"; "collections.borrow_arr.borrow_array"; "collections.array.array";
+  "collections.static_array.static_array"].
+Fixpoint index_of (q : string) (l : list string) (i : Z) : Z :=
+  match l with [] => (-1)%Z | x :: r => if String.eqb x q then i else index_of q r (i + 1)%Z end.
+Definition bcode (b : bound) : Z := match b with Copyable => 0%Z | Linear => 1%Z end.
+Definition zb (b : bool) : Z := if b then 1%Z else 0%Z.
+
+Fixpoint ser (h : hty) : list Z :=
+  match h with
+  | HExt q args =>
+      1%Z :: index_of q qnames 0%Z :: Z.of_nat (List.length args) ::
+      flat_map (fun a => match a with
+                         | HTy t => 10%Z :: ser t
+                         | HNat n => [11%Z; Z.of_N n]
+                         | HNatVar i => [12%Z; Z.of_N i] end) args
+  | HSum rows => 2%Z :: Z.of_nat (List.length rows) ::
+      flat_map (fun r => Z.of_nat (List.length r) :: flat_map ser r) rows
+  | HVar i b => [3%Z; Z.of_N i; bcode b]
+  | HFun => [4%Z]
+  | HQubit => [5%Z]
+  | HAlias => [6%Z]
+  | HOpaque _ _ _ => [7%Z]
+  end.
+
+(* canonical form of a drop for comparison with compiled programs: the compiler may unpack
+   tuples / structs (single-row sums) before dropping, so a drop is flattened to the leaves
+   that require a drop *)
+Fixpoint drop_leaves (h : hty) : list hty :=
+  if requires_drop h then
+    match h with
+    | HSum rows => match rows with [row] => flat_map drop_leaves row | _ => [h] end
+    | _ => [h]
+    end
+  else [].
+
+Definition leaves (t : ty) : list (list Z) :=
+  match to_hugr t with Some h => map ser (drop_leaves h) | None => [[(-2)%Z]] end.
+
+Definition verdict (t : ty) : list Z :=
+  [zb (copyable t); zb (droppable t); bcode (hugr_bound t); zb (wfb t); zb (witnessedb t); zb (nophantomb t)] ++
+  match to_hugr t with
+  | Some h => [1%Z; bcode (type_bound h); zb (requires_drop h)] ++ ser h
+  | None => [0%Z]
+  end.
